@@ -85,6 +85,17 @@ def autoSnapshotRuns (exitCode : Int) (enabled filesGiven diffGiven staged : Boo
 def autoSnapshotRuns' (exitCode : Int) (enabled filesGiven diffGiven staged filesSkipped : Bool) : Bool :=
   autoSnapshotRuns exitCode enabled filesGiven diffGiven staged && !filesSkipped
 
+/-- the command line narrows the scan (fix 179de33): `--include`, `--exclude`, `--ext`, or a
+    reduced scan target other than `.` (`targetsAreRoot` = every `canonical_target` is `.`) -/
+def narrowedByArguments (includeGiven excludeGiven extGiven targetsAreRoot : Bool) : Bool :=
+  includeGiven || excludeGiven || extGiven || !targetsAreRoot
+
+/-- `whole_project_scanned` and the auto-snapshot condition of `run_check_impl` as they are now -/
+def autoSnapshotRuns'' (exitCode : Int) (enabled filesGiven diffGiven staged filesSkipped
+    includeGiven excludeGiven extGiven targetsAreRoot : Bool) : Bool :=
+  autoSnapshotRuns' exitCode enabled filesGiven diffGiven staged filesSkipped &&
+    !narrowedByArguments includeGiven excludeGiven extGiven targetsAreRoot
+
 /-- `find_entry_at_or_before`: search backwards -/
 def findAtOrBefore (h : List Entry) (t : Nat) : Option Entry := h.reverse.find? (fun e => e.ts ≤ t)
 
